@@ -105,13 +105,16 @@ def parseObsStep (op : String) (s : String) : Option ConnContract.Step :=
 
 def handle (args : List String) (obs : String) : String :=
   match args with
-  | [script, ops] =>
+  | script :: ops :: rest =>
     match decBytes script with
     | none => "bad-case\tFAIL:bad-case"
     | some sc =>
       let opl := splitNonEmpty ops ";"
-      let (c, outs) := runOps { input := sc } opl []
-      let model := ";".intercalate outs ++ " wire=" ++ encBytes c.wire
+      -- third argument `rst`: the client's stream ends with a reset (socket error) instead of end-of-stream, and the
+      -- client reads nothing (its transcript is empty)
+      let rst := rest.head? == some "rst"
+      let (c, outs) := runOps { input := sc, inputErr := rst } opl []
+      let model := ";".intercalate outs ++ " wire=" ++ (if rst then "" else encBytes c.wire)
       let verdict :=
         if obs == "PANIC" then "FAIL:panic:" else
         match obs.splitOn " wire=" with
@@ -135,6 +138,7 @@ def handle (args : List String) (obs : String) : String :=
                 let (ci, _) := runOps { input := sc } intact []
                 ConnContract.checkSteps "H" "N" steps ++
                 (if wire.isPrefixOf ci.wire then [] else ["not-a-prefix-of-the-correct-serialisation"])
+              else if rst then ConnContract.checkSteps "H" "N" steps
               else ConnContract.check steps wire
             match fails with
             | [] => "ok"
